@@ -771,6 +771,9 @@ class Model:
             Self: The instance of the model with the parameter removed.
 
         """
+        if name not in self._parameters:
+            msg = f"'{name}' not found in parameters"
+            raise KeyError(msg)
         self._remove_id(name=name)
         self._parameters.pop(name)
         return self
@@ -927,23 +930,30 @@ class Model:
 
         """
         value = self._parameters[name].value if initial_value is None else initial_value
+
+        # Check all targets before changing anything
+        if stoichiometries is not None:
+            for rxn_name in stoichiometries:
+                if rxn_name not in self._reactions and not any(
+                    rxn_name in surrogate.stoichiometries
+                    for surrogate in self._surrogates.values()
+                ):
+                    msg = f"Reaction '{rxn_name}' not found in reactions or surrogates"
+                    raise KeyError(msg)
+
         self.remove_parameter(name)
         self.add_variable(name, value)
 
         if stoichiometries is not None:
             for rxn_name, value in stoichiometries.items():
-                target = False
                 if (rxn := self._reactions.get(rxn_name)) is not None:
-                    target = True
                     cast(dict, rxn.stoichiometry)[name] = value
                 else:
                     for surrogate in self._surrogates.values():
-                        if stoich := surrogate.stoichiometries.get(rxn_name):
-                            target = True
+                        if (
+                            stoich := surrogate.stoichiometries.get(rxn_name)
+                        ) is not None:
                             stoich[name] = value
-                if not target:
-                    msg = f"Reaction '{rxn_name}' not found in reactions or surrogates"
-                    raise KeyError(msg)
 
         return self
 
@@ -1123,6 +1133,9 @@ class Model:
             Self: The instance of the model with the variable removed.
 
         """
+        if name not in self._variables:
+            msg = f"'{name}' not found in variables"
+            raise KeyError(msg)
         if remove_stoichiometries:
             for rxn in self._reactions.values():
                 if name in rxn.stoichiometry:
@@ -1439,6 +1452,9 @@ class Model:
             Self: The instance of the model with the derived attribute removed.
 
         """
+        if name not in self._derived:
+            msg = f"'{name}' not found in derived"
+            raise KeyError(msg)
         self._remove_id(name=name)
         self._derived.pop(name)
         return self
@@ -1673,6 +1689,9 @@ class Model:
             Self: The instance of the model with the reaction removed.
 
         """
+        if name not in self._reactions:
+            msg = f"'{name}' not found in reactions"
+            raise KeyError(msg)
         self._remove_id(name=name)
         self._reactions.pop(name)
         return self
@@ -1772,6 +1791,9 @@ class Model:
             Self: The instance of the class after the readout has been removed.
 
         """
+        if name not in self._readouts:
+            msg = f"'{name}' not found in readouts"
+            raise KeyError(msg)
         self._remove_id(name=name)
         del self._readouts[name]
         return self
@@ -1805,7 +1827,17 @@ class Model:
             Self: The current instance with the added surrogate model.
 
         """
-        self._insert_id(name=name, ctx="surrogate")
+        # Insert ids, all or nothing
+        new_outputs = surrogate.outputs if outputs is None else outputs
+        inserted: list[str] = []
+        try:
+            for i in (name, *new_outputs):
+                self._insert_id(name=i, ctx="surrogate")
+                inserted.append(i)
+        except (KeyError, NameError):
+            for i in inserted:
+                self._remove_id(name=i)
+            raise
 
         # Update surrogate if necessary
         if args is not None:
@@ -1814,10 +1846,6 @@ class Model:
             surrogate.outputs = outputs
         if stoichiometries is not None:
             surrogate.stoichiometries = stoichiometries
-
-        # Insert ids
-        for output in surrogate.outputs:
-            self._insert_id(name=output, ctx="surrogate")
 
         self._surrogates[name] = surrogate
         return self
@@ -1858,6 +1886,16 @@ class Model:
         if surrogate is None:
             surrogate = self._surrogates[name]
 
+        # Check the new output names before changing anything
+        new_outputs = surrogate.outputs if outputs is None else outputs
+        for i in new_outputs:
+            if i == "time":
+                msg = "time is a protected variable for time"
+                raise KeyError(msg)
+            if (i in self._ids and i not in old_outputs) or new_outputs.count(i) > 1:
+                msg = f"Model already contains {self._ids.get(i, 'surrogate')} called '{i}'"
+                raise NameError(msg)
+
         # Update existing / passed surrogate (other args always take precendece)
         if args is not None:
             surrogate.args = args
@@ -1886,6 +1924,9 @@ class Model:
             Self: The instance of the model with the specified surrogate model removed.
 
         """
+        if name not in self._surrogates:
+            msg = f"Surrogate '{name}' not found in model"
+            raise KeyError(msg)
         self._remove_id(name=name)
         surrogate = self._surrogates.pop(name)
         for output in surrogate.outputs:
@@ -1951,6 +1992,9 @@ class Model:
     @_invalidate_cache
     def remove_data(self, name: str) -> Self:
         """Remove data set from model."""
+        if name not in self._data:
+            msg = f"'{name}' not found in data"
+            raise KeyError(msg)
         self._remove_id(name=name)
         self._data.pop(name)
         return self
